@@ -7,22 +7,27 @@
 package http
 
 //@ func http.debugDecryptedMessage
+//@   params msgType decrypted
 //@   props C10(sweep)
 //@   sweep bounds,panic,make,nilmem,div
 
 //@ func http.debugRequest
+//@   params w r handler
 //@   props C10(sweep)
 //@   sweep bounds,panic,make,nilmem,div
 
 //@ func http.debugRequestOut
+//@   params req body
 //@   props C10(sweep)
 //@   sweep bounds,panic,make,nilmem,div
 
 //@ func http.debugResponse
+//@   params resp
 //@   props C10(sweep)
 //@   sweep bounds,panic,make,nilmem,div
 
 //@ func http.debugUnencryptedMessage
+//@   params msgType msg
 //@   props C10(sweep)
 //@   sweep bounds,panic,make,nilmem,div
 
